@@ -176,6 +176,97 @@ type Case struct {
 	ArriveDefault int
 	QBlock        int
 	NonAtomic     bool // the message body goes through BodyNonAtomic (LMTP) instead of Body
+
+	// Wraps: how the check of each block hands its results to the pipeline (`reply` ops only; nil:
+	// every check reports at the body stage a CheckResult that holds the results and nothing else).
+	// One token per entry of Blocks ("-": no check), or a single token for the one global check of
+	// a run without timing.  A token is the stage at which the check reports - c CheckConnection,
+	// s CheckSender, r CheckRcpt, b CheckBody - followed by any of: i a Reason is attached while
+	// neither Reject nor Quarantine is set (the check's own action is "ignore", or it leaves the
+	// decision to DMARC as check.spf does), q Reason and Quarantine (the check's own action is
+	// "quarantine"), h the check adds header fields of its own (Received-SPF and the like), d the same
+	// check is referenced again by every later block of the configuration (the message passes it
+	// several times; it is asked once).
+	Wraps []string
+}
+
+// WrapOf is the wrap token of the check of block k ("b" when the case has none).
+func (c *Case) WrapOf(k int) string {
+	if k >= 0 && k < len(c.Wraps) && c.Wraps[k] != "-" && c.Wraps[k] != "" {
+		return c.Wraps[k]
+	}
+	return "b"
+}
+
+func WrapStage(w string) byte          { return w[0] }
+func WrapHas(w string, flag byte) bool { return strings.IndexByte(w[1:], flag) >= 0 }
+
+// EarlierQ: some check other than DMARC has flagged the message (the flagger check, or a
+// result-reporting check whose own action is quarantine).
+func (c *Case) EarlierQ() bool {
+	if c.PriorQ {
+		return true
+	}
+	for k, w := range c.Wraps {
+		if w == "-" || w == "" {
+			continue
+		}
+		if c.Blocks != nil && (k >= len(c.Blocks) || c.Blocks[k] < 0) {
+			continue
+		}
+		if WrapHas(w, 'q') {
+			return true
+		}
+	}
+	return false
+}
+
+func wrapOK(w string) bool {
+	if w == "-" {
+		return true
+	}
+	if len(w) == 0 || strings.IndexByte("csrb", w[0]) < 0 {
+		return false
+	}
+	for i := 1; i < len(w); i++ {
+		if strings.IndexByte("iqhd", w[i]) < 0 || strings.IndexByte(w[1:i], w[i]) >= 0 {
+			return false
+		}
+	}
+	return !(WrapHas(w, 'i') && WrapHas(w, 'q'))
+}
+
+// AddWraps draws, for every check of the case, the stage at which it reports and what else its
+// CheckResult carries (after AddTiming, if the case gets a timing).
+func AddWraps(r *vh.Rng, c *Case) {
+	n := 1
+	if c.Blocks != nil {
+		n = len(c.Blocks)
+	}
+	c.Wraps = make([]string, n)
+	for k := range c.Wraps {
+		if c.Blocks != nil && c.Blocks[k] < 0 {
+			c.Wraps[k] = "-"
+			continue
+		}
+		w := "b"
+		if r.Chance(30) {
+			w = string("csr"[r.Intn(3)])
+		}
+		switch x := r.Intn(100); {
+		case x < 45:
+			w += "i"
+		case x < 60:
+			w += "q"
+		}
+		if r.Chance(30) {
+			w += "h"
+		}
+		if k < 2 && r.Chance(15) {
+			w += "d"
+		}
+		c.Wraps[k] = w
+	}
 }
 
 // ArriveAt is the arrival stage of the answer for a zone name (compared case-insensitively).
@@ -425,6 +516,9 @@ func (c *Case) Op(kind string, fieldVals []string, out *vh.Out) string {
 			g = append(g, "A "+Tok(n)+" "+strconv.Itoa(c.ArriveAt(n)))
 		}
 	}
+	if kind == "reply" && c.Wraps != nil {
+		g = append(g, "W "+strings.Join(c.Wraps, " "))
+	}
 	for _, r := range c.Res {
 		switch r.Kind {
 		case 'd':
@@ -500,6 +594,13 @@ func ParseOp(op string) (kind string, c *Case, err error) {
 					n, _ := strconv.Atoi(x)
 					c.Blocks = append(c.Blocks, n)
 				}
+			}
+		case "W":
+			for _, w := range f[1:] {
+				if !wrapOK(w) {
+					panic("wrap token " + w)
+				}
+				c.Wraps = append(c.Wraps, w)
 			}
 		case "A":
 			if c.Arrive == nil {
@@ -1675,6 +1776,49 @@ func TimedCorpus() []*Case {
 			c.Blocks, c.Arrive, c.ArriveDefault = blocks, map[string]int{"example.com": stage}, 0
 			c.NonAtomic = stage%2 == 1
 			out = append(out, c)
+		}
+	}
+	return out
+}
+
+// WrapCorpus: pipeline runs in which the checks hand their verdicts over the way the stock checks
+// do (reply ops only): check.spf leaving the decision to DMARC or with action "ignore" - the
+// result together with a Reason and no action flag -, a check whose own action is quarantine, a
+// check that evaluates at the MAIL FROM / RCPT TO stage, header fields next to the results.
+func WrapCorpus() []*Case {
+	dk := func(v, d string) Res { return Res{Kind: 'd', Val: v, Dom: d, Ident: "@" + d} }
+	spf := func(v, from, helo string) Res { return Res{Kind: 's', Val: v, From: from, Helo: helo} }
+	one := func(d string) string { return "From: Some Body <user@" + d + ">\r\nSubject: x\r\n\r\n" }
+	var out []*Case
+	for _, pol := range []string{"reject", "quarantine", "none"} {
+		for _, v := range []string{"fail", "softfail", "none", "temperror", "pass"} {
+			for i, lay := range []struct {
+				blocks []int
+				wraps  []string
+			}{
+				{nil, []string{"bi"}},
+				{[]int{1, 1, -1}, []string{"b", "bi", "-"}},
+				{[]int{1, -1, 1}, []string{"bih", "-", "si"}},
+				{[]int{-1, 1, 1}, []string{"-", "ci", "ri"}},
+				{[]int{0, 1, 1}, []string{"bi", "rh", "bq"}},
+				{nil, []string{"sq"}},
+				{[]int{2, -1, -1}, []string{"rih", "-", "-"}},
+				{[]int{1, 1, -1}, []string{"bid", "sd", "-"}},
+				{nil, []string{"bid"}},
+			} {
+				// nothing aligned: the only signature is somebody else's, SPF speaks for another domain
+				c := mk(one("example.com"), "1", "example.com", map[string]Zone{"example.com": txt("v=DMARC1; p=" + pol)},
+					dk("pass", "example.net"), spf(v, "example.net", "mx.example.net"))
+				c.Blocks, c.Wraps = lay.blocks, lay.wraps
+				c.ArriveDefault = i % 5
+				out = append(out, c)
+				// the SPF identity is the author's: a pass aligns, whatever comes with the result
+				c = mk(one("example.com"), "1", "example.com", map[string]Zone{"example.com": txt("v=DMARC1; p=" + pol + "; aspf=s")},
+					dk("fail", "example.com"), spf(v, "example.com", "mx.example.net"))
+				c.Blocks, c.Wraps = lay.blocks, lay.wraps
+				c.NonAtomic = lay.blocks != nil && i%2 == 1
+				out = append(out, c)
+			}
 		}
 	}
 	return out
